@@ -235,3 +235,75 @@ _register_integrators = register
 def register(reg):
     _register_integrators(reg)
     register_pipelines(reg)
+
+
+def bounded_raytransfer_objects(ctx):
+    """Bounded stand-in (NOT a proof) for the user-facing ray-transfer objects (raytransfer.py, the voxel-map / mask setters of the emitters,
+    the pipelines): random histories of voxel_map / mask / step assignments interleaved with ray traces on RayTransferBox and
+    RayTransferCylinder; after every step: bins = number of sources, mask = (voxel_map > -1), a mask numbers the active cells consecutively,
+    invert_voxel_map() lists the cells of each source, and the traced row equals that of a freshly built object with the same settings and
+    the row computed from the full-resolution row by summing the cells of each source."""
+    from replaylib.native import run_native
+    n = 10 if ctx['tier'] == 'quick' else 120
+    code = '''
+import random, numpy as np
+from raysect.optical import World, Ray, Point3D, Vector3D, translate
+from cherab.tools.raytransfer import RayTransferBox, RayTransferCylinder
+rnd = random.Random(%d)
+bad = []; cases = 0
+def trace(world, o, d, bins):
+    ray = Ray(origin=Point3D(*o), direction=Vector3D(*d).normalise(), min_wavelength=500., max_wavelength=501., bins=bins)
+    return np.array(ray.trace(world).samples)
+def random_map(shape):
+    k = rnd.randint(1, 5); m = np.array([rnd.randint(-1, k - 1) for _ in range(int(np.prod(shape)))], dtype=np.int32).reshape(shape)
+    for s in range(k): m.flat[rnd.randrange(m.size)] = s        # every source has at least one cell
+    return m
+def random_mask(shape):
+    m = np.array([rnd.random() < 0.6 for _ in range(int(np.prod(shape)))]).reshape(shape); m.flat[rnd.randrange(m.size)] = True
+    return m
+for trial in range(%d):
+    for kind in ("box", "cylinder"):
+        world = World()
+        if kind == "box":
+            shape = (3, 2, 3); mk = lambda w, **kw: RayTransferBox(3., 2., 3., 3, 2, 3, step=0.01, parent=w, transform=translate(0.5, 0, -0.25), **kw)
+            o, d = (-1., 0.3 + 1.2 * rnd.random(), 0.2 + 2 * rnd.random()), (5., 1.0 * rnd.uniform(-0.2, 0.2), rnd.uniform(-0.3, 0.3))
+        else:
+            shape = (3, 4, 2); mk = lambda w, **kw: RayTransferCylinder(2., 2., 3, 2, radius_inner=0.5, n_polar=4, period=90., step=0.01, parent=w, transform=translate(0, 0, -0.5), **kw)
+            o, d = (3.0, 0.4 * rnd.uniform(-1, 1), rnd.uniform(-0.2, 1.2)), (-6., rnd.uniform(-0.5, 0.5), rnd.uniform(-0.3, 0.3))
+        obj = mk(world)
+        ncell = int(np.prod(shape))
+        full = trace(world, o, d, ncell)
+        vm = np.arange(ncell, dtype=np.int32).reshape(shape)
+        for step in range(rnd.randint(2, 5)):
+            r_ = rnd.random()
+            if step == 0: r_ = 0.0          # every history starts with a (merging) voxel map followed by a mask equal to its active cells
+            if step == 1: r_ = 0.5
+            if r_ < 0.4:
+                vm = random_map(shape); obj.voxel_map = vm; what = "voxel_map"
+            elif r_ < 0.6:
+                # a mask equal to the currently active cells: documented to (re)build the one-source-per-cell map
+                mask = np.asarray(obj.mask).copy(); obj.mask = mask; what = "mask equal to the active cells"
+                vm = -np.ones(shape, dtype=np.int32); vm[mask] = np.arange(int(mask.sum()), dtype=np.int32)
+            else:
+                mask = random_mask(shape); obj.mask = mask; what = "mask"
+                vm = -np.ones(shape, dtype=np.int32); vm[mask] = np.arange(int(mask.sum()), dtype=np.int32)
+            cases += 1
+            nb = int(vm.max()) + 1
+            inv = obj.invert_voxel_map()
+            ok = (obj.bins == nb and np.array_equal(np.asarray(obj.voxel_map), vm) and np.array_equal(np.asarray(obj.mask), vm > -1) and len(inv) == nb
+                  and all(np.array_equal(np.stack(inv[s]), np.stack(np.where(vm == s))) for s in range(nb)))
+            got = trace(world, o, d, max(nb, 1))
+            want = np.array([full[(vm == s).ravel()].sum() for s in range(nb)])
+            w2 = World(); fresh = mk(w2, voxel_map=vm); wantf = trace(w2, o, d, max(nb, 1))
+            if not ok or not np.allclose(got[:nb], want, rtol=0, atol=1e-9) or not np.allclose(got, wantf, rtol=0, atol=1e-9):
+                bad.append({"object": kind, "trial": trial, "after_assigning": what, "bins": obj.bins, "expected_bins": nb,
+                            "row": got[:6].tolist(), "row_from_cell_lengths": want[:6].tolist(), "row_fresh_object": wantf[:6].tolist()}); break
+print(json.dumps({"cases": cases, "bad": bad[:6]}))
+''' % (ctx['seed'] + 10, n)
+    out = run_native(ctx, code, timeout=900)
+    return {'name': 'ray-transfer objects: voxel_map / mask histories vs fresh objects and cell sums (BOUNDED stand-in, not counted as proved)',
+            'ok': bool(out) and out.get('bad') == [], 'detail': out, 'covers': ['raytransfer'],
+            'bound': '%d random histories of 1..4 assignments on a 3x2x3 box and a 3x4x2 cylinder, seed %d' % (n, ctx['seed'] + 10)}
+
+
+BOUNDED = [bounded_raytransfer_objects]
